@@ -31,6 +31,8 @@ func init() {
 				Edits: []Edit{{File: "driver/generic/sendcommands.go", Old: "\t\tm.AppendResponse(r)\n\n\t\tif op.StopOnFailed && r.Failed != nil {\n\t\t\td.Logger.Info(\n\t\t\t\t\"encountered failed command, and stop on failed is true,\" +\n\t\t\t\t\t\" discontinuing send commands operation\",\n\t\t\t)\n\n\t\t\treturn m, err\n\t\t}\n", New: "\t\tif op.StopOnFailed && r.Failed != nil {\n\t\t\td.Logger.Info(\n\t\t\t\t\"encountered failed command, and stop on failed is true,\" +\n\t\t\t\t\t\" discontinuing send commands operation\",\n\t\t\t)\n\n\t\t\treturn m, err\n\t\t}\n\n\t\tm.AppendResponse(r)\n"}}},
 			{ID: "C13-scan-breaks-early", Desc: "failure scan stops at the first list entry longer than the output", Rule: "C13/mark",
 				Edits: []Edit{{File: "util/strings.go", Old: "func StringContainsAnySubStrs(s string, l []string) string {\n\tfor _, ss := range l {\n", New: "func StringContainsAnySubStrs(s string, l []string) string {\n\tfor _, ss := range l {\n\t\tif len(ss) > len(s) {\n\t\t\tbreak\n\t\t}\n\n"}}},
+			{ID: "C13-network-drops-options", Desc: "network SendCommand forwards no per-operation options to the generic driver", Rule: "C13/opts-forwarded",
+				Edits: []Edit{{File: "driver/network/sendcommand.go", Old: "return d.Driver.SendCommand(command, opts...)", New: "return d.Driver.SendCommand(command)"}}},
 			{ID: "C13-mark-on-empty", Desc: "response marked failed when nothing matched", Rule: "C13/mark",
 				Edits: []Edit{{File: "response/response.go", Old: "\tif s != \"\" {", New: "\tif s == \"\" {"}}},
 			{ID: "C13-aggregate-first-only", Desc: "aggregate records only the first failed member", Rule: "C13/aggregate",
@@ -53,6 +55,7 @@ func runC13(c *Ctx, r *Report) {
 	r.Rule("C13/precedence", "the driver failure list is used exactly when the operation list is empty, and that list is given to NewResponse", 6)
 	r.Rule("C13/mark", "Record marks failed exactly on a non-empty match of the recorded output; the scan helper returns the first contained string and tests every element until a match", 4)
 	r.Rule("C13/op-options-applied", "generic.NewOperation applies the full per-operation option list (stop-on-failed, failure strings) in order", 1)
+	r.Rule("C13/opts-forwarded", "every generic- and network-driver operation hands its full per-operation option list to each option-taking library callee", 9)
 	r.Rule("C13/stop", "every response appended before the stop test; early success only under StopOnFailed && Failed != nil; no command after it", 3)
 	r.Rule("C13/aggregate", "AppendResponse appends on every path and records member failures; SendConfig copies Failed and joins members' results", 4)
 	r.Rule("C13/options", "WithStopOnFailed / WithFailedWhenContains store the setting they name", 4)
@@ -129,6 +132,7 @@ func runC13(c *Ctx, r *Report) {
 	}
 
 	checkRecordMark(c, r)
+	checkOptsForwarded(c, r, "C13/opts-forwarded", [][2]string{{"driver/generic", "Driver"}, {"driver/network", "Driver"}})
 	checkOperationApplyLoop(c, r, "C13/op-options-applied", "driver/generic")
 	checkStopOnFailed(c, r)
 	checkAggregate(c, r)
